@@ -14,6 +14,8 @@ import asyncio
 import os
 import sqlite3
 import tempfile
+import threading
+import time
 
 from path import Path
 
@@ -265,4 +267,144 @@ async def validate_loop_system(limit=40):
             os.chdir(old_cwd)
     out["events"] = events
     out["nvalidate"] = nval[0]
+    return out
+
+
+async def skip_window_system():
+    """Three real serve() runs on the same .stepup/graph.db (finding C03-skip-window).
+
+    Build 1 (mode.txt = A): plan.py declares src.txt and mode.txt, amends mode.txt, defines p (inp
+    src.txt, out f.txt) and c (inp f.txt, out o.txt); everything runs.
+    Build 2 (the user wrote B into mode.txt): plan.py runs again and defines h (out late.txt), p and c
+    as before (both recycled with their hashes: `SKIP p`, c is dispatched to CHECKING) and then
+    amends late.txt, which is not built yet: the plan is DEFERRED.  h finishes, the plan runs again
+    and now defines p with the inputs late.txt and src.txt: p is PENDING again (mark_step_pending
+    ignores the CHECKING consumer c), is executed and rewrites f.txt.  All this happens while the
+    output of c is still being hashed (the only scheduling element chosen by the harness: the hash
+    thread of o.txt is slow, as it is for a big file).  Then try_skip_job finishes: `SKIP c`.
+    Build 3: nothing changed.
+    """
+    import stepup.core.director as di
+    import stepup.core.executor as ex
+    from stepup.core.constants import GRAPH_DB
+    from stepup.core.director import ServeConfig, serve
+    from stepup.core.enums import Need
+    from stepup.core.outcome import ChildOutcome
+    from stepup.core.reporter import ReporterClient
+    from stepup.core.rpc import BaseAsyncRPCClient
+    from stepup.core.sqlite3 import DBSession
+
+    events, handler, count = [], {}, {}
+    build = [1]
+    checking, p_done, h_started, plan_deferred = (threading.Event() for _ in range(4))
+
+    class Rec(BaseAsyncRPCClient):
+        async def __call__(self, name, /, *args, **kwargs):
+            if name == "report" and args and args[0] in ("START", "SUCCESS", "FAIL", "DEFERRED", "SKIP", "ERROR"):
+                events.append([args[0], str(args[1])])
+            return None
+
+    orig_wire = di._wire_director
+
+    async def wire(**kw):
+        h = await orig_wire(**kw)
+        handler["h"] = h
+        return h
+
+    D = Need.DEFAULT.value
+
+    async def fake_launch(command, *, shell, env, cwd, mp_ctx, run):
+        h = handler["h"]
+        j = run.job_i
+        n = count[(build[0], command)] = count.get((build[0], command), 0) + 1
+        if command == "./plan.py":
+            await h.declare_static(j, [], ["src.txt", "mode.txt"], [])
+            await h.amend_step(j, ["mode.txt"], set(), [], [])
+            if Path("mode.txt").read_text() == "A":
+                await h.define_step(j, "p", ["src.txt"], [], ["f.txt"], [], ".", D, {})
+                await h.define_step(j, "c", ["f.txt"], [], ["o.txt"], [], ".", D, {})
+            else:
+                await h.define_step(j, "h", [], [], ["late.txt"], [], ".", D, {})
+                inp = ["src.txt"] if n == 1 else ["late.txt", "src.txt"]
+                await h.define_step(j, "p", inp, [], ["f.txt"], [], ".", D, {})
+                await h.define_step(j, "c", ["f.txt"], [], ["o.txt"], [], ".", D, {})
+                if n == 1:
+                    while not (checking.is_set() and h_started.is_set()):
+                        await asyncio.sleep(0)
+                await h.amend_step(j, ["late.txt"], set(), [], [])
+                if n == 1:
+                    plan_deferred.set()
+        elif command == "h":
+            h_started.set()
+            while not plan_deferred.is_set():
+                await asyncio.sleep(0)
+            Path("late.txt").write_text("late")
+        elif command == "p":
+            extra = Path("late.txt").read_text() if build[0] == 2 else ""
+            Path("f.txt").write_text("f:" + Path("src.txt").read_text() + extra)
+            if build[0] == 2:
+                p_done.set()
+        elif command == "c":
+            Path("o.txt").write_text("o:" + Path("f.txt").read_text())
+        return ChildOutcome(0, "", "")
+
+    orig_out = ex.compute_out_hashes
+
+    def slow_out(out_hashes, cancel_event):
+        if build[0] == 2 and "o.txt" in out_hashes:
+            checking.set()
+            # a slow hash of the output: it lasts until p has been executed again and recorded
+            p_done.wait(30)
+            for _ in range(4000):
+                con = sqlite3.connect(".stepup/graph.db")
+                try:
+                    row = con.execute("SELECT state FROM step JOIN node ON node.i = step.node "
+                                      "WHERE node.label = 'p' AND NOT node.detached").fetchone()
+                finally:
+                    con.close()
+                if row and row[0] == 23:
+                    break
+                time.sleep(0.005)
+        return orig_out(out_hashes, cancel_event)
+
+    old_cwd = os.getcwd()
+    old_launch = ex.launch_command
+    out = {}
+    with tempfile.TemporaryDirectory(prefix="verif-c03skipwin-") as d:
+        try:
+            os.chdir(d)
+            ex.launch_command = fake_launch
+            di._wire_director = wire
+            ex.compute_out_hashes = slow_out
+            Path("plan.py").write_text("#!/usr/bin/env python3\n")
+            os.chmod("plan.py", 0o755)
+            Path("src.txt").write_text("hello")
+            Path("mode.txt").write_text("A")
+            Path(".stepup").makedirs_p()
+            for b in (1, 2, 3):
+                build[0] = b
+                if b == 2:
+                    Path("mode.txt").write_text("B")
+                events.append(["BUILD", str(b)])
+                try:
+                    with DBSession.open(GRAPH_DB) as db:
+                        res = await asyncio.wait_for(
+                            serve(ServeConfig(njob=4, use_duration=False), director_socket_path=Path(".stepup/sock"),
+                                  reporter=ReporterClient(Rec()), db=db, handle_signals=False), 60)
+                    out[f"rc{b}"] = res.returncode.value
+                except BaseException as e:  # noqa: BLE001
+                    out[f"rc{b}"] = f"EXC {type(e).__name__}: {e}"
+                con = sqlite3.connect(".stepup/graph.db")
+                states = dict(con.execute("SELECT label, state FROM node JOIN step ON node.i = step.node").fetchall())
+                con.close()
+                out[f"states{b}"] = states
+                out[f"c_state{b}"] = states.get("c")
+                out[f"f{b}"] = Path("f.txt").read_text() if Path("f.txt").exists() else None
+                out[f"o{b}"] = Path("o.txt").read_text() if Path("o.txt").exists() else None
+        finally:
+            ex.launch_command = old_launch
+            di._wire_director = orig_wire
+            ex.compute_out_hashes = orig_out
+            os.chdir(old_cwd)
+    out["events"] = events
     return out
